@@ -1,5 +1,6 @@
 import GoRedisModel.Proofs.Loop
 import GoRedisModel.Proofs.SourceFacts
+import GoRedisModel.Proofs.Sane
 /-! # C07 — no client can crash the server or disturb other clients
 
 In the model a Go run-time panic inside the connection goroutine is the event `crash`: it is caught by the
@@ -33,6 +34,33 @@ theorem C07_user_commands_leave_server_state (pf : FloatOracle) (srv : SrvSt) (c
     simp [systemNames] at hs
     simp [executeCommand, hh, execSystem, hs, h]
   · right; simpa using hh
+
+/-- **No client input can make a request panic when the application's handler honours its interface.**  A handler
+result is *sane* when it is an error or a message without a nil pointer in it (no nil message, no nil array, no nil
+element at any depth).  For every byte stream a client sends, every server state, with or without a password, and every
+script of sane handler results, the trace of the connection contains no `crash`: every executor of the framework —
+including the composed ones that interpret the handler's reply (INCR, APPEND, GETRANGE, MSETNX, SCARD, SISMEMBER,
+ZREVRANGE, ZREVRANGEBYSCORE, HKEYS, HLEN …) — returns, whatever type of message the handler answered with, and what it
+returns can be serialized.  (`Proofs/Sane`: a safety predicate over the interaction trees, proved for all 56 user
+executors, the 7 nested ones and the 6 system ones, for arbitrary argument lists.) -/
+theorem C07_sane_handler_never_crashes (pf : FloatOracle) (srv : SrvSt) (requirePass : Bool) (input : Bytes)
+    (script : List HRes) (hs : saneScript script = true) :
+    crashedIn (serve pf srv requirePass input script) = false := by
+  unfold serve
+  simp only [crashedIn_append, crashedIn, Bool.false_or, Bool.or_false]
+  exact serveLoop_sane pf _ srv _ input script hs
+
+/-- … and every request that was received completely is then answered with exactly one well-formed reply -/
+theorem C07_sane_request_is_answered (pf : FloatOracle) (srv : SrvSt) (conn : ConnSt) (m : Msg) (hm : noAbsent m = true)
+    (script : List HRes) (hs : saneScript script = true) :
+    ∃ bs, writesOf (reqStep pf srv conn m script).evs = [bs] ∧ Frame bs :=
+  reqStep_one_write pf srv conn m script (reqStep_sane pf srv conn m hm script hs).1
+
+/-- the hypothesis is satisfiable (a handler answering with a bulk string, an array with a null bulk in it, or an error),
+and it is needed: the empty script stands for a handler that returns `(nil, nil)` -/
+example : saneScript [{ msg := .bulk (some b!"v") }, { msg := .arr [.bulk none, .line .int b!"1"] }, { err := some b!"ERR" }] = true := by
+  decide
+example : saneScript [] = false ∧ saneScript [{}] = false ∧ saneScript [{ msg := .arr [.absent] }] = false := by decide
 
 /-! ## The inputs that used to kill the process, evaluated on the repaired model -/
 
